@@ -186,7 +186,7 @@ class Validator:
         if hasattr(state, "__getitem__"):
             try:
                 return state[type]
-            except KeyError:
+            except (KeyError, TypeError, IndexError):
                 pass
 
         if type == "ugettext":
